@@ -759,7 +759,25 @@ def gen_roundtrip(rng, n):
 def hexs(s): return (s.encode() if isinstance(s, str) else s).hex() or '-'
 
 
+def literal_underflow(rng, maxd=100):
+    """a literal whose rounding position lies inside (or just beyond) its digits because of the bottom exponent -6176:
+    keep of the nd digits stay above the quantum 1E-6176, the rest is a tail of a chosen rounding class"""
+    keep = rng.choice([0, 1, 1, 1, 2, 2, 3, 33, 34]) if rng.random() < 0.45 else rng.randint(0, 34)
+    tl = rng.choice([33, 34, 35, 36]) if rng.random() < 0.3 else rng.randint(1, max(1, min(maxd, 70) - keep))
+    head = (str(coeff(rng, keep)) if keep else '')
+    if keep and rng.random() < 0.3: head = rng.choice(['6', '2', '5', '9', '1', '7']) * 1 + '0' * (keep - 1) if rng.random() < 0.5 else '9' * keep
+    tail = tail_digits(rng, tl)
+    if rng.random() < 0.45 and tl > 2: tail = '5' + '0' * (tl - 2) + rng.choice('011')      # tie / tie broken far to the right
+    ds = head + tail
+    E = -6176 - tl + rng.choice([0, 0, 0, 0, 1, -1, 2, -2])
+    s = rng.choice(['', '+', '-'])
+    if rng.random() < 0.4 and len(ds) > 1:      # same value written with a decimal point
+        p = rng.randint(1, len(ds) - 1); return s + ds[:p] + '.' + ds[p:] + 'E' + str(E + len(ds) - p)
+    return s + ds + rng.choice('eE') + str(E)
+
+
 def literal(rng, maxd=100):
+    if rng.random() < 0.15: return literal_underflow(rng, maxd)
     nd = rng.choice([rng.randint(1, 34), rng.randint(1, 34), rng.randint(35, maxd), rng.randint(30, 40)])
     ds = ''.join(rng.choice('0123456789') for _ in range(nd))
     if nd > 37 and rng.random() < 0.5:      # ties and near-ties at digit 35
